@@ -18,6 +18,10 @@ from . import defuse as DU
 from .trace import *  # noqa: F401,F403
 
 CFG = "pyxel/configuration/configuration.py"
+BOUNDED = {
+    r'modes\.copies_keep_pipeline': 'processors with ten groups of one model (two models and a namesake in two of them); symbolic names, flags and arguments',
+    r'^yaml ': 'YAML documents with 0..2 models per group in canonical and reversed key order',
+}      # unit-name / obligation-name patterns -> the family these obligations are proved for
 TRUSTED = ["`**mapping` iterates keys() and indexes (Python semantics); user model functions return or raise",
            "logging calls and tqdm are effect-free (dropped)", "ModelGroup.run debug block: abstract block with frame detector._intermediate (deny-list checked syntactically)",
            "call.args and yaml.to_pipeline are proved for 0..3 configured arguments / 0..2 models per group (BOUNDED in that dimension; all other obligations are unbounded)"]
